@@ -456,6 +456,7 @@ func (t *tree) parseSwitch(token item, end itemType) ast.Node {
 	t.expect(itemRightDelim, ctx)
 
 	var cases []*ast.SwitchCaseNode
+	var seenDefault = false
 	for {
 		switch tok := t.next(); tok.typ {
 		case itemLeftDelim:
@@ -465,6 +466,12 @@ func (t *tree) parseSwitch(token item, end itemType) ast.Node {
 			}
 			t.unexpected(tok, "between switch cases")
 		case itemCase, itemDefault:
+			if tok.typ == itemDefault {
+				if seenDefault {
+					t.unexpected(tok, "after the {default} of this "+ctx)
+				}
+				seenDefault = true
+			}
 			cases = append(cases, t.parseCase(tok))
 		case end:
 			t.expect(itemRightDelim, ctx)
